@@ -263,4 +263,393 @@ theorem planOrc_passes (lead : Nat) (plan : List PT) : (planOrc lead plan plan.l
   unfold planOrc
   simp
 
+
+/-! ### facts about a call under any oracle (restated as property theorems in Props/C17.lean) -/
+theorem add_effect' (self retries : Nat) (orc : Nat → Tick) (log : List Entry) (p : Nat)
+    (h : (consAddPeer self retries orc log p).1 = .ok) :
+    cfgHas (cfgAt (consAddPeer self retries orc log p).2) p = true := by
+  refine consLoop_ok (Q := fun l => cfgHas (cfgAt l) p = true) ?_ _ _ _ h
+  intro l f _
+  cases hh : cfgHas (cfgAt l) p with
+  | true => rw [rwAddPeer_present hh, List.append_nil]; exact hh
+  | false =>
+    unfold rwAddPeer
+    simp only [hh, Bool.false_eq_true, if_false]
+    split_ifs
+    · rw [cfgAt_append]; simp only [applyCfg]; rw [cfgHas_cfgPut]; simp
+    · simp_all [rwAddPeer]
+
+theorem rm_effect' (self retries : Nat) (orc : Nat → Tick) (log : List Entry) (p : Nat)
+    (h : (consRmPeer self retries orc log p).1 = .ok) :
+    cfgHas (cfgAt (consRmPeer self retries orc log p).2) p = false := by
+  refine consLoop_ok (Q := fun l => cfgHas (cfgAt l) p = false) ?_ _ _ _ h
+  intro l f hok
+  cases hh : cfgHas (cfgAt l) p with
+  | false => rw [rwRemovePeer_absent hh, List.append_nil]; exact hh
+  | true =>
+    unfold rwRemovePeer at hok ⊢
+    simp only [hh, Bool.not_true, Bool.false_eq_true, if_false] at hok ⊢
+    split_ifs at hok ⊢
+    rw [cfgAt_append]; simp only [applyCfg]; rw [cfgHas_cfgErase]; simp
+
+theorem add_once_if_absent' (self retries : Nat) (orc : Nat → Tick) (log : List Entry) (p : Nat) :
+    (consAddPeer self retries orc log p).2 = log ∨
+    (cfgHas (cfgAt log) p = false ∧ (consAddPeer self retries orc log p).2 = log ++ [.addVoter p]) := by
+  refine consLoop_inv (I := fun l => l = log ∨ (cfgHas (cfgAt log) p = false ∧ l = log ++ [.addVoter p])) ?_ _ _ _ (Or.inl rfl)
+  intro l f hl
+  rcases hl with rfl | ⟨hn, rfl⟩
+  · cases hh : cfgHas (cfgAt l) p with
+    | true => left; rw [rwAddPeer_present hh, List.append_nil]
+    | false =>
+      unfold rwAddPeer
+      simp only [hh, Bool.false_eq_true, if_false]
+      split_ifs
+      · right; exact ⟨trivial, rfl⟩
+      · left; simp
+  · right
+    have : cfgHas (cfgAt (log ++ [.addVoter p])) p = true := by
+      rw [cfgAt_append]; simp only [applyCfg]; rw [cfgHas_cfgPut]; simp
+    rw [rwAddPeer_present this, List.append_nil]
+    exact ⟨hn, rfl⟩
+
+theorem rm_once_if_present' (self retries : Nat) (orc : Nat → Tick) (log : List Entry) (p : Nat) :
+    (consRmPeer self retries orc log p).2 = log ∨
+    (cfgHas (cfgAt log) p = true ∧ (consRmPeer self retries orc log p).2 = log ++ [.rmServer p]) := by
+  refine consLoop_inv (I := fun l => l = log ∨ (cfgHas (cfgAt log) p = true ∧ l = log ++ [.rmServer p])) ?_ _ _ _ (Or.inl rfl)
+  intro l f hl
+  rcases hl with rfl | ⟨hn, rfl⟩
+  · cases hh : cfgHas (cfgAt l) p with
+    | false => left; rw [rwRemovePeer_absent hh, List.append_nil]
+    | true =>
+      unfold rwRemovePeer
+      simp only [hh, Bool.not_true, Bool.false_eq_true, if_false]
+      split_ifs
+      · left; simp
+      · right; exact ⟨trivial, rfl⟩
+      · left; simp
+  · right
+    have : cfgHas (cfgAt (log ++ [.rmServer p])) p = false := by
+      rw [cfgAt_append]; simp only [applyCfg]; rw [cfgHas_cfgErase]; simp
+    rw [rwRemovePeer_absent this, List.append_nil]
+    exact ⟨hn, rfl⟩
+
+
+/-! ### fault scripts: what the model admits meets the clauses -/
+
+/-- the fault model's log and the property's own bookkeeping describe the same cluster -/
+structure FRel (s : FSt) (log : List Entry) : Prop where
+  ids : cfgIds (cfgAt log) = s.members
+  pins : pinsAt log = s.pinset
+
+theorem fCallAny_some {retries : Nat} {init : List Nat} {log : List Entry} {att : Attempt} {a j lead : Nat} {res : Res}
+    {fwd loc : Nat} {has : Has} {log' : List Entry} :
+    ∀ orcs, fCallAny retries init log att a j lead res fwd loc has orcs = some log' →
+      ∃ orc ∈ orcs, fCall retries init log att orc a j lead res fwd loc has = some log' := by
+  intro orcs
+  induction orcs with
+  | nil => intro h; cases h
+  | cons o rest ih =>
+    intro h
+    unfold fCallAny at h
+    cases hc : fCall retries init log att o a j lead res fwd loc has with
+    | some l => rw [hc] at h; exact ⟨o, List.mem_cons_self .., by rw [hc]; exact h⟩
+    | none =>
+      rw [hc] at h
+      obtain ⟨orc, ho, hh⟩ := ih h
+      exact ⟨orc, List.mem_cons_of_mem _ ho, hh⟩
+
+theorem fCall_some {retries : Nat} {init : List Nat} {log : List Entry} {att : Attempt} {orc : Nat → Tick} {a j lead : Nat}
+    {res : Res} {fwd loc : Nat} {has : Has} {log' : List Entry}
+    (h : fCall retries init log att orc a j lead res fwd loc has = some log') :
+    fPlaced init log a lead = true ∧ (consLoop a retries att orc (retries + 1) 0 log).1 = res ∧
+    log' = (consLoop a retries att orc (retries + 1) 0 log).2 ∧ has = modelHas log' j := by
+  unfold fCall at h
+  simp only at h
+  split_ifs at h with hc
+  injection h with h
+  subst h
+  simp only [Bool.and_eq_true, beq_iff_eq] at hc
+  obtain ⟨⟨⟨⟨h1, h2⟩, _⟩, _⟩, h5⟩ := hc
+  rw [consLoopT_fst] at h2 h5 ⊢
+  exact ⟨h1, h2, rfl, h5.symm⟩
+
+theorem modelHas_all {log : List Entry} {j : Nat} : modelHas log j = .all ↔ cfgHas (cfgAt log) j = true := by
+  unfold modelHas; split_ifs with h <;> simp [h]
+
+theorem modelHas_none {log : List Entry} {j : Nat} : modelHas log j = .none ↔ cfgHas (cfgAt log) j = false := by
+  unfold modelHas; split_ifs with h <;> simp [h]
+
+theorem modelHas_ne_mixed (log : List Entry) (j : Nat) : modelHas log j ≠ .mixed := by
+  unfold modelHas; split_ifs <;> simp
+
+theorem contains_iff_cfgHas {s : FSt} {log : List Entry} (R : FRel s log) (j : Nat) :
+    s.members.contains j = cfgHas (cfgAt log) j := by
+  unfold cfgHas; rw [R.ids]
+
+theorem fPlaced_lead {init : List Nat} {log : List Entry} {a lead : Nat} (h : fPlaced init log a lead = true) :
+    cfgHas (cfgAt log) a = true ∧ cfgHas (cfgAt log) lead = true := by
+  unfold fPlaced at h
+  simp only [Bool.and_eq_true] at h
+  exact ⟨h.1.2, h.2⟩
+
+theorem fStep_add {retries : Nat} {init : List Nat} {s : FSt} {log log' : List Entry} {a j lead : Nat} {plan : List PT}
+    {res : Res} {fwd loc : Nat} {has : Has} (R : FRel s log)
+    (h : fStep retries init log (.add a j lead plan res fwd loc has) = some log') :
+    FRel (fAdvance s (.add a j lead plan res fwd loc has)) log' ∧
+    ∀ c ∈ fCheckOp retries init s (.add a j lead plan res fwd loc has), c.2 = true := by
+  unfold fStep at h
+  obtain ⟨orc, ho, hc⟩ := fCallAny_some _ h
+  have ho' : orc = planOrc lead plan := by simpa using ho
+  subst ho'
+  obtain ⟨hp, hres, hlog, hhas⟩ := fCall_some hc
+  have hlog' : log' = (consAddPeer a retries (planOrc lead plan) log j).2 := hlog
+  have hres' : (consAddPeer a retries (planOrc lead plan) log j).1 = res := hres
+  have honce := add_once_if_absent' a retries (planOrc lead plan) log j
+  rw [← hlog'] at honce
+  constructor
+  · -- bookkeeping
+    rcases honce with h1 | ⟨hn, h1⟩
+    · subst h1
+      refine ⟨?_, ?_⟩
+      · simp only [fAdvance]
+        split_ifs with hh
+        · have : has = .all := by simpa using hh
+          rw [this] at hhas
+          have hj : j ∈ cfgIds (cfgAt log') := cfgHas_iff.1 (modelHas_all.1 hhas.symm)
+          simp only
+          rw [← R.ids, insertPeer_of_mem (sorted_cfgAt log') hj]
+        · exact R.ids
+      · simp only [fAdvance]; split_ifs <;> exact R.pins
+    · have hin : cfgHas (cfgAt log') j = true := by
+        rw [h1, cfgAt_append]; simp only [applyCfg]; rw [cfgHas_cfgPut]; simp
+      have : has = .all := by rw [hhas]; exact modelHas_all.2 hin
+      subst this
+      refine ⟨?_, ?_⟩
+      · simp only [fAdvance, beq_self_eq_true, if_true]
+        rw [h1, cfgAt_append]; simp only [applyCfg]; rw [cfgIds_cfgPut, R.ids]
+      · simp only [fAdvance, beq_self_eq_true, if_true]
+        rw [h1, pinsAt_append]; simp only [applyPin]; exact R.pins
+  · intro c hcm
+    simp only [fCheckOp, List.mem_cons, List.mem_nil_iff, or_false] at hcm
+    rcases hcm with rfl | rfl | rfl
+    · -- ack_in_all
+      simp only [Bool.or_eq_true, Bool.not_eq_true', beq_iff_eq]
+      cases hr : res with
+      | err => left; rfl
+      | ok =>
+        right
+        rw [hr] at hres'
+        have := add_effect' a retries (planOrc lead plan) log j hres'
+        rw [← hlog'] at this
+        rw [hhas]; exact modelHas_all.2 this
+    · -- failed_not_split
+      simp only [Bool.or_eq_true, Bool.and_eq_true, Bool.not_eq_true', beq_iff_eq]
+      cases hm : cfgHas (cfgAt log') j with
+      | true => left; right; rw [hhas]; exact modelHas_all.2 hm
+      | false =>
+        right
+        refine ⟨by rw [hhas]; exact modelHas_none.2 hm, ?_⟩
+        rw [contains_iff_cfgHas R]
+        rcases honce with h1 | ⟨hn, _⟩
+        · rw [h1] at hm; exact hm
+        · exact hn
+    · -- add_present_noop
+      show (!(init.contains a && s.members.contains a && s.members.contains j && planPasses retries a lead plan) || okB res) = true
+      cases hprem : (init.contains a && s.members.contains a && s.members.contains j && planPasses retries a lead plan) with
+      | false => rfl
+      | true =>
+        simp only [Bool.not_true, Bool.false_or]
+        simp only [Bool.and_eq_true] at hprem
+        obtain ⟨⟨_, hj⟩, hpass⟩ := hprem
+        rw [contains_iff_cfgHas R] at hj
+        have hok : (consAddPeer a retries (planOrc lead plan) log j).1 = .ok := by
+          unfold planPasses at hpass
+          by_cases hal : (lead == a) = true
+          · have : lead = a := by simpa using hal
+            subst this
+            exact consLoop_leading (planOrc_leader _ _ 0) (fun f => by rw [rwAddPeer_present hj])
+          · refine consLoop_answered (good_add_present j) (planOrc_leader lead plan) hj (by simpa using hal) ?_
+            simp only [Bool.or_eq_true, beq_iff_eq, decide_eq_true_eq] at hpass
+            rcases hpass with hpass | hpass
+            · exact absurd (by simp [hpass]) hal
+            · exact ⟨plan.length, hpass, planOrc_passes lead plan⟩
+        rw [hres'] at hok
+        simp [okB, hok]
+
+
+theorem fStep_rm {retries : Nat} {init : List Nat} {s : FSt} {log log' : List Entry} {a j lead : Nat} {plan : List PT}
+    {res : Res} {fwd loc : Nat} {has : Has} (R : FRel s log)
+    (h : fStep retries init log (.rm a j lead plan res fwd loc has) = some log') :
+    FRel (fAdvance s (.rm a j lead plan res fwd loc has)) log' ∧
+    ∀ c ∈ fCheckOp retries init s (.rm a j lead plan res fwd loc has), c.2 = true := by
+  unfold fStep at h
+  obtain ⟨orc, ho, hc⟩ := fCallAny_some _ h
+  obtain ⟨hp, hres, hlog, hhas⟩ := fCall_some hc
+  have hlog' : log' = (consRmPeer a retries orc log j).2 := hlog
+  have hres' : (consRmPeer a retries orc log j).1 = res := hres
+  have honce := rm_once_if_present' a retries orc log j
+  rw [← hlog'] at honce
+  constructor
+  · rcases honce with h1 | ⟨hn, h1⟩
+    · subst h1
+      refine ⟨?_, ?_⟩
+      · simp only [fAdvance]
+        split_ifs with hh
+        · have : has = .none := by simpa using hh
+          rw [this] at hhas
+          have hj : j ∉ cfgIds (cfgAt log') := cfgHas_false_iff.1 (modelHas_none.1 hhas.symm)
+          simp only
+          rw [← R.ids, erasePeer_of_not_mem hj]
+        · exact R.ids
+      · simp only [fAdvance]; split_ifs <;> exact R.pins
+    · have hout : cfgHas (cfgAt log') j = false := by
+        rw [h1, cfgAt_append]; simp only [applyCfg]; rw [cfgHas_cfgErase]; simp
+      have : has = .none := by rw [hhas]; exact modelHas_none.2 hout
+      subst this
+      refine ⟨?_, ?_⟩
+      · simp only [fAdvance, beq_self_eq_true, if_true]
+        rw [h1, cfgAt_append]; simp only [applyCfg]; rw [cfgIds_cfgErase, R.ids]
+      · simp only [fAdvance, beq_self_eq_true, if_true]
+        rw [h1, pinsAt_append]; simp only [applyPin]; exact R.pins
+  · intro c hcm
+    simp only [fCheckOp, List.mem_cons, List.mem_nil_iff, or_false] at hcm
+    rcases hcm with rfl | rfl | rfl | rfl
+    · -- ack_in_all
+      simp only [Bool.or_eq_true, Bool.not_eq_true', beq_iff_eq]
+      cases hr : res with
+      | err => left; rfl
+      | ok =>
+        right
+        rw [hr] at hres'
+        have := rm_effect' a retries orc log j hres'
+        rw [← hlog'] at this
+        rw [hhas]; exact modelHas_none.2 this
+    · -- failed_not_split
+      simp only [Bool.or_eq_true, Bool.and_eq_true, beq_iff_eq]
+      cases hm : cfgHas (cfgAt log') j with
+      | false => left; right; rw [hhas]; exact modelHas_none.2 hm
+      | true =>
+        right
+        refine ⟨by rw [hhas]; exact modelHas_all.2 hm, ?_⟩
+        rw [contains_iff_cfgHas R]
+        rcases honce with h1 | ⟨_, h1⟩
+        · rw [h1] at hm; exact hm
+        · rw [h1, cfgAt_append] at hm
+          simp only [applyCfg] at hm
+          rw [cfgHas_cfgErase] at hm
+          simp at hm
+    · -- rm_absent_noop
+      show (!(init.contains a && s.members.contains a && !s.members.contains j && planPasses retries a lead plan) || okB res) = true
+      cases hprem : (init.contains a && s.members.contains a && !s.members.contains j && planPasses retries a lead plan) with
+      | false => rfl
+      | true =>
+        simp only [Bool.not_true, Bool.false_or]
+        simp only [Bool.and_eq_true, Bool.not_eq_true'] at hprem
+        obtain ⟨⟨⟨_, ha⟩, hj⟩, hpass⟩ := hprem
+        rw [contains_iff_cfgHas R] at hj ha
+        obtain ⟨_, hlead⟩ := fPlaced_lead hp
+        have haj : (a == j) = false := by
+          cases hx : (a == j) with
+          | false => rfl
+          | true => have : a = j := by simpa using hx
+                    subst this; rw [ha] at hj; cases hj
+        have hlj : (j == lead) = false := by
+          cases hx : (j == lead) with
+          | false => rfl
+          | true => have : j = lead := by simpa using hx
+                    subst this; rw [hlead] at hj; cases hj
+        have ho' : orc = planOrc lead plan := by
+          unfold rmOrcs at ho
+          simpa [haj, hlj] using ho
+        subst ho'
+        have hok : (consRmPeer a retries (planOrc lead plan) log j).1 = .ok := by
+          unfold planPasses at hpass
+          by_cases hal : (lead == a) = true
+          · have : lead = a := by simpa using hal
+            subst this
+            exact consLoop_leading (planOrc_leader _ _ 0) (fun f => by rw [rwRemovePeer_absent hj])
+          · refine consLoop_answered (good_rm_absent j) (planOrc_leader lead plan) hj (by simpa using hal) ?_
+            simp only [Bool.or_eq_true, beq_iff_eq, decide_eq_true_eq] at hpass
+            rcases hpass with hpass | hpass
+            · exact absurd (by simp [hpass]) hal
+            · exact ⟨plan.length, hpass, planOrc_passes lead plan⟩
+        rw [hres'] at hok
+        simp [okB, hok]
+    · -- last_peer_kept
+      show (!(s.members == [j]) || !okB res) = true
+      cases hl : (s.members == [j]) with
+      | false => rfl
+      | true =>
+        have hm : s.members = [j] := by simpa using hl
+        have hids : cfgIds (cfgAt log) = [j] := by rw [R.ids, hm]
+        have : consRmPeer a retries orc log j = (.err, log) :=
+          consLoop_refused (fun f => rwRemovePeer_last hids f) _ _
+        rw [this] at hres'
+        simp only at hres'
+        subst hres'
+        rfl
+
+theorem fStep_pin {retries : Nat} {init : List Nat} {s : FSt} {log log' : List Entry} {a : Nat} {p : Pin} (R : FRel s log)
+    (h : fStep retries init log (.pin a p) = some log') : FRel (fAdvance s (.pin a p)) log' := by
+  unfold fStep at h
+  simp only at h
+  split_ifs at h
+  injection h with h
+  subst h
+  refine ⟨?_, ?_⟩
+  · rw [cfgAt_append]; simp only [applyCfg, fAdvance]; exact R.ids
+  · rw [pinsAt_append]; simp only [applyPin, fAdvance]; rw [R.pins]
+
+theorem fReplay_rel {retries : Nat} {init : List Nat} : ∀ (ops : List FOp) {s : FSt} {log log' : List Entry}, FRel s log →
+    fReplay retries init log ops = some log' →
+    FRel (fFinal s ops) log' ∧ (fCheckOps retries init s ops).all (·.2) = true := by
+  intro ops
+  induction ops with
+  | nil =>
+    intro s log log' R h
+    simp only [fReplay] at h
+    injection h with h; subst h
+    exact ⟨R, rfl⟩
+  | cons op rest ih =>
+    intro s log log' R h
+    unfold fReplay at h
+    cases hs : fStep retries init log op with
+    | none => rw [hs] at h; cases h
+    | some l1 =>
+      rw [hs] at h
+      simp only at h
+      have key : FRel (fAdvance s op) l1 ∧ ∀ c ∈ fCheckOp retries init s op, c.2 = true := by
+        cases op with
+        | add a j lead plan res fwd loc has => exact fStep_add R hs
+        | rm a j lead plan res fwd loc has => exact fStep_rm R hs
+        | pin a p => exact ⟨fStep_pin R hs, by simp [fCheckOp]⟩
+      obtain ⟨R1, hc1⟩ := key
+      obtain ⟨R2, hc2⟩ := ih R1 h
+      refine ⟨R2, ?_⟩
+      simp only [fCheckOps, List.all_append, Bool.and_eq_true]
+      exact ⟨List.all_eq_true.2 hc1, hc2⟩
+
+theorem fRel_init (init : List Nat) : FRel (fInit init) [.boot init] := by
+  refine ⟨?_, rfl⟩
+  show cfgIds (cfgAt [.boot init]) = normPeers init
+  simp only [cfgAt, List.foldl_cons, List.foldl_nil, applyCfg]
+  exact cfgIds_initCfg init
+
+theorem fObs_clauses {init : List Nat} {s : FSt} {log : List Entry} (R : FRel s log) {o : Obs}
+    (h : fObsOk init log o = true) : (fCheckObs init s o).all (·.2) = true := by
+  unfold fObsOk at h
+  simp only [Bool.and_eq_true, List.all_eq_true] at h
+  obtain ⟨h1, _⟩ := h
+  have key : ∀ m ∈ o.members.filter (fun m => init.contains m.id && s.members.contains m.id),
+      m.peers = s.members ∧ canonMap m.pins = canonMap s.pinset := by
+    intro m hm
+    obtain ⟨hm1, hm2⟩ := List.mem_filter.1 hm
+    have := h1 m hm1
+    rw [contains_iff_cfgHas R] at hm2
+    simp only [hm2, Bool.not_true, Bool.false_or, Bool.and_eq_true, beq_iff_eq] at this
+    rw [← R.ids, ← R.pins]
+    exact ⟨this.1.1, this.1.2⟩
+  simp only [fCheckObs, List.all_cons, List.all_nil, Bool.and_true, Bool.and_eq_true, List.all_eq_true, beq_iff_eq]
+  exact ⟨fun m hm => (key m hm).1, fun m hm => (key m hm).2⟩
+
 end CV.C17
